@@ -177,4 +177,36 @@ theorem compressH_decodes (hist block : List UInt8) (o : Oracle) (hO : OracleOK 
     | search2 _ _ _ _ _ => cases h
     | search3 _ _ _ _ _ _ _ => cases h
 
+/-! ## the certificate behind every level: chained, verified sequences
+
+Whatever parser chose them (lz4mid at levels 1-2, the hash-chain parser at 3-9, the optimal parser at 10-12): if the sequences handed to
+`LZ4HC_encodeSequence` start one after the other from the start of the block and each match is byte-verified inside `hist ++ block`, the block made of them
+and of the remaining literals decodes to its source.  The judge checks the two premises on the sequences logged from the real parsers and that the real
+block is this serialisation. -/
+theorem chained_verified_sequences_decode (hist block : List UInt8) (es : List Emit) (a' : Nat) (hc : Chain hist.length es a')
+    (hok : ∀ e ∈ es, EmitOK (hist ++ block) e) :
+    decode hist (serialize (es.map (toSeq (hist ++ block))) ((hist ++ block).drop a')) = some block := by
+  have hv := chain_valid (hist ++ block) es hist.length a' hc hok (by rw [List.length_append]; omega)
+  rw [List.take_left' rfl] at hv
+  exact roundtrip hist _ _ block (fun s hs => by
+    obtain ⟨e, he, rfl⟩ := List.mem_map.mp hs
+    obtain ⟨_, h2, h3, h4, _⟩ := hok e he
+    exact ⟨h2, by show e.off < 65536; omega⟩) hv
+
+/-- executable premises -/
+def chainB : Nat → List Emit → Option Nat
+  | a, [] => some a
+  | a, e :: es => if e.anchor = a then chainB (e.ip + e.len) es else none
+
+theorem chainB_sound : ∀ (es : List Emit) (a a' : Nat), chainB a es = some a' → Chain a es a' := by
+  intro es
+  induction es with
+  | nil => intro a a' h; simp only [chainB, Option.some.injEq] at h; exact h
+  | cons e t ih =>
+    intro a a' h
+    simp only [chainB] at h
+    split at h
+    · rename_i he; exact ⟨he, ih _ _ h⟩
+    · cases h
+
 end HC
